@@ -24,9 +24,55 @@ def once_only_callbacks(ck, tier, seed, replay):
     return True
 
 
+def free_running(ck, tier):
+    """Uncontrolled goroutines under the Go race detector (harness/cmd/vstress): the controlled schedules cannot split a read-modify-write
+    that sits between two yield points, and their hand-overs order every access; here the race detector reports conflicting accesses to
+    the SDK's state that no lock orders, and the monitors are the property's own (operations on sessions nobody closed succeed)."""
+    import json, os, re, vlib
+    binp, ok, blog = vlib.go_build("vstress", race=True)
+    ck.oblige(ok, "race-detector build of the free-running harness", blog)
+    if not ok:
+        ck.violation(ck.replay_file("build", {"obligation": "race-detector build of harness/cmd/vstress against /repo failed", "log": blog[-4000:]}), False)
+        return False
+    outp = os.path.join(vlib.BUILD, "C08-stress-%d.json" % os.getpid())
+    env = dict(os.environ)
+    env["GORACE"] = "halt_on_error=0 exitcode=0"
+    try:
+        rc, so, se, dt = vlib.run([binp, "-rounds", "12" if tier == "quick" else "120", "-out", outp], env=env, timeout=1500)
+        cases = json.load(open(outp))["cases"] if rc == 0 and os.path.exists(outp) else []
+    finally:
+        for pth in (binp, outp):
+            if os.path.exists(pth):
+                os.remove(pth)
+    ck.oblige(rc == 0, "free-running harness run", (so + se)[-3000:])
+    blocks = [b for b in re.split(r"={18}\n", se) if "WARNING: DATA RACE" in b]
+    sdk = [b for b in blocks if re.search(r"godaddy/asherah/go/(appencryption|securememory)[./(]", b)]
+    viol = [c for c in cases if c.get("viol")]
+    ck.oblige(not sdk, "no unsynchronised conflicting accesses to SDK state in %d free-running rounds x %d scenarios (Go race detector)" % (
+        cases[0]["rounds"] if cases else 0, len(cases)), sdk[0][:3000] if sdk else "")
+    ck.oblige(not viol, "free-running: every operation on a session its holder has not closed succeeds", json.dumps(viol[:1])[:2000])
+    ck.cov["free_running"] = {"scenarios": [c["scenario"] for c in cases], "rounds_each": cases[0]["rounds"] if cases else 0,
+                              "operations": sum(c["ops"] for c in cases), "race_reports": len(blocks)}
+    ck.cov["trusted_base"] += ["the Go race detector (happens-before over the accesses the free-running rounds actually performed)"]
+    if rc != 0:
+        ck.violation(ck.replay_file("stress", {"what": "the free-running harness crashed or hung", "log": (so + se)[-4000:], "Case": {"stress": True}}))
+    elif viol:
+        ck.violation(ck.replay_file("stress", {"what": viol[0]["viol"], "Case": {"stress": True, "scenario": viol[0]["scenario"]},
+                                               "race_report": sdk[0][:4000] if sdk else None}))
+    elif sdk:
+        ck.violation(ck.replay_file("stress", {"what": "two goroutines access the same SDK state without any lock ordering them (an update of a reference / usage count can be lost: "
+                                                       "a key or session is then closed underneath its user)", "race_report": sdk[0][:4000],
+                                               "Case": {"stress": True, "scenarios": [c["scenario"] for c in cases]}}))
+    return True
+
+
 def main(tier, seed, replay):
     ck = Check("C08", tier, seed)
     ck.coq_theorems()
+    if replay and '"stress"' in open(replay).read():
+        free_running(ck, tier)
+        ck.cov.update({"evaluations": 1, "distinct_nontrivial": 1, "rule": "replay (free-running rounds are not deterministic; the race detector reports the same pair of accesses)"})
+        return ck.finish()
     if replay and "cachecb" in replay:
         once_only_callbacks(ck, tier, seed, replay)
         ck.cov.update({"evaluations": 1, "distinct_nontrivial": 1, "rule": "replay"})
@@ -39,6 +85,7 @@ def main(tier, seed, replay):
         # "... or close of another session": holders of a cached session while other holders close it / it is evicted
         conccheck.run(ck, "sesscache", tier, seed, None, n_quick=90, n_thorough=900, only="destroyed")
         once_only_callbacks(ck, tier, seed, None)
+        free_running(ck, tier)
     if cases is not None:
         s = ck.cov["schedules"]["keycache"]
         ck.cov.update({"evaluations": s["evaluations"], "distinct_nontrivial": s["distinct_schedules"],
@@ -47,7 +94,7 @@ def main(tier, seed, replay):
                                "shared SLRU-2, SK LRU-1, per-session LRU-1; monitors: every operation on an open session succeeds with the right bytes, no use-after-destroy, "
                                "no double release, no deadlock; non-trivial = distinct schedule with >= 8 releases",
                        "samples": [s["sample_trace"]]})
-        ck.cov["trusted_base"] += ["the Go scheduler and memory model are represented by interleavings of the blocks between yield points; data-race freedom is assumed",
+        ck.cov["trusted_base"] += ["the Go scheduler and memory model are represented by interleavings of the blocks between yield points; data-race freedom inside a block is checked by the free-running rounds under the race detector, not proved",
                                    "a released goroutine that does not reach its next yield point within 2 ms is treated as blocked in a native primitive"]
     if not ck.violations and ck.discharged != ck.obligations:
         ck.violation(ck.replay_file("oblig", {"obligation": ck.cov.get("failed_obligations")}), False)
